@@ -234,10 +234,147 @@ def uniform_grid(chk):
                 func=fq, meta={"replay": rep})
 
 
+def log_variant(chk):
+    """_HyperRectangleGrid.interpolate(use_log=True) for a positive function f = exp(L): the value is exp(I[L]) and the derivative of order
+    n <= 3 in ONE variable is exp(I[L]) * B_n(I_1[L], .., I_n[L]) (Faa di Bruno; B_n the complete Bell polynomial), where I_m[L] is what the
+    same method returns for log(values) without the logarithm (its own contract, used for the recursive calls); for any number of query
+    points (loop invariant).  Together with the polynomial reproduction of the plain variant (bounded layer) this is the clause "also through
+    the logarithmic variant"."""
+    eng = chk.eng
+    fq = f"{MOD}._HyperRectangleGrid.interpolate"
+    Mq, j0, g0 = z3.Ints("Mq j0 g0")
+    n = z3.Ints("n0 n1 n2")
+    LI = z3.Function("plain_interpolant_of_log", IS, IS, IS, IS, RS)     # (nu_x, nu_y, nu_z, query point) -> value returned without use_log
+    VAL = z3.Function("val", IS, RS)
+    PT = z3.Function("qpt", IS, IS, RS)
+    calls = []
+
+    def rec_contract(eng_, f, args, kwargs):
+        """contract of the recursive calls: use_log=False on the same points with log(values)."""
+        a = list(args)
+        pts, vals = a[1], a[2]
+        kw = dict(kwargs)
+        ok = kw.get("use_log", None) is False and kw.get("method", "cubic") == "cubic"
+        nus = tuple(kw.get(k_, 0) for k_ in ("nu_x", "nu_y", "nu_z"))
+        ok = ok and all(isinstance(v, int) and not isinstance(v, bool) for v in nus)
+        eng_.oblige("recursive-call/pre/plain-cubic-variant-with-integer-orders", z3.BoolVal(bool(ok)), kind="callee-pre")
+        eng_.oblige("recursive-call/pre/log-of-the-values", z3.And(z3.BoolVal(isinstance(vals, I.Arr) and vals.ndim == 1),
+                                                                  T.zr(vals.fn(g0)) == T.UF1["log"](VAL(g0))) if isinstance(vals, I.Arr) and vals.ndim == 1
+                    else z3.BoolVal(False), kind="callee-pre")
+        same = isinstance(pts, I.Arr) and pts.ndim == 2
+        eng_.oblige("recursive-call/pre/same-points", z3.And(*[T.zr(pts.fn(j0, c)) == PT(j0, c) for c in range(3)]) if same else z3.BoolVal(False),
+                    kind="callee-pre")
+        if not ok:
+            raise T.Unsupported("recursive call outside the contract of the plain variant")
+        calls.append(nus)
+        return I.Arr((Mq,), lambda j, nus=nus: LI(nus[0], nus[1], nus[2], T.zi(j)), "real")
+
+    def symbols_contract(eng_, spec_):
+        if not (isinstance(spec_, str) and spec_.startswith("x:") and spec_[2:].isdigit()):
+            raise T.Unsupported(f"sympy.symbols({spec_!r})")
+        return tuple(I.Opaque("symbol", name=f"x{i}") for i in range(int(spec_[2:])))
+
+    def bell_contract(eng_, nn, kk, syms):
+        names = [s_.data["name"] for s_ in syms]
+
+        def evalf(eng__, subs=None, **kw):
+            from contracts.C15 import bell_def
+            return bell_def(nn, kk, [subs[nm] for nm in names])
+        return I.Opaque("bell-polynomial", evalf=I.Model("evalf", evalf))
+
+    def complete_bell(order, xs):
+        if order == 1:
+            return xs[0]
+        if order == 2:
+            return xs[0] * xs[0] + xs[1]
+        return xs[0] * xs[0] * xs[0] + 3 * xs[0] * xs[1] + xs[2]
+
+    def spec_for(nus, j):
+        base = T.UF1["exp"](LI(0, 0, 0, j))
+        order = max(nus)
+        if order == 0:
+            return base
+        d = nus.index(order)
+        xs = [LI(*[(m if c == d else 0) for c in range(3)], j) for m in range(1, order + 1)]
+        return base * complete_bell(order, xs)
+
+    cases = [(0, 0, 0)] + [tuple(m if c == d else 0 for c in range(3)) for d in range(3) for m in (1, 2, 3)] + [(1, 1, 0), (0, 2, 1)]
+    for nus in cases:
+        tag = "".join(map(str, nus))
+        rep = {"what": "interpolate-log", "nu": list(nus)}
+        mixed = sum(v > 0 for v in nus) > 1
+        state = {}
+
+        def hav(fr, name, old, nus=nus):
+            if name == "bell_derivs":
+                from pyvc import lazyseq as LZ
+                order = max(nus)
+                d = nus.index(order)
+                return LZ.SymList(state["spec"].k, lambda s_: complete_bell(order, [LI(*[(m if c == d else 0) for c in range(3)], T.zi(s_))
+                                                                                     for m in range(1, order + 1)]), scalar=True)
+            return None
+
+        def inv(fr, kk, nus=nus):
+            from pyvc import lazyseq as LZ
+            v = fr.load_name("bell_derivs")
+            kk = T.zi(kk)
+            if isinstance(v, list):
+                return z3.And(kk == 0, z3.BoolVal(len(v) == 0))
+            if not isinstance(v, LZ.SymList):
+                raise T.Unsupported("bell_derivs is not a list")
+            order = max(nus)
+            d = nus.index(order)
+            want = complete_bell(order, [LI(*[(m if c == d else 0) for c in range(3)], g0) for m in range(1, order + 1)])
+            return z3.And(T.zi(v.length) == kk, z3.Implies(z3.And(g0 >= 0, g0 < kk), T.zr(v.item(g0)) == want))
+
+        def thunk(eng_, nus=nus):
+            eng_.assume(z3.And(*[x > 3 for x in n]))
+            eng_.assume(z3.And(Mq >= 1, j0 >= 0, j0 < Mq, g0 >= 0, g0 < n[0] * n[1] * n[2]))
+            g = hyper_obj(eng_, n)
+            pts = I.Arr((Mq, 3), lambda j, c: PT(T.zi(j), T.zi(c)), "real")
+            vals = I.Arr((n[0] * n[1] * n[2],), lambda i: VAL(T.zi(i)), "real")
+            spec = I.LoopSpec(inv, havoc=hav, modifies=["bell_derivs"], name="query-points")
+            state["spec"] = spec
+            eng_.loop_specs[(fq, 1)] = spec
+            eng_.callee_contracts[fq] = rec_contract
+            eng_.recursive_contracts.add(fq)
+            eng_.externals["sympy.symbols"] = symbols_contract
+            eng_.externals["sympy.functions.combinatorial.numbers.bell"] = bell_contract
+            eng_.generic_indices = [j0]
+            try:
+                out = eng_.call_method(g, "interpolate", pts, vals, use_log=True, nu_x=nus[0], nu_y=nus[1], nu_z=nus[2])
+                return out.fn(j0), out.shape
+            finally:
+                eng_.loop_specs.pop((fq, 1), None)
+                eng_.callee_contracts.pop(fq, None)
+                eng_.recursive_contracts.discard(fq)
+                eng_.externals.pop("sympy.symbols", None)
+                eng_.externals.pop("sympy.functions.combinatorial.numbers.bell", None)
+                eng_.generic_indices = []
+        outs = chk.explore(f"interpolate-log/nu{tag}", thunk, func=fq)
+        rets = [o for o in outs if o.kind == "return"]
+        if mixed:
+            chk.add(f"interpolate-log/nu{tag}/post/mixed-derivative-refused", [], z3.BoolVal(bool(outs) and all(o.kind == "raise" and o.exc == "NotImplementedError" for o in outs)),
+                    func=fq, meta={"replay": rep, "paths": str([(o.kind, o.exc, o.note) for o in outs])})
+            continue
+        chk.add(f"interpolate-log/nu{tag}/post/returns", [], z3.BoolVal(bool(rets) and all(o.kind in ("return", "end") for o in outs)), func=fq,
+                meta={"replay": rep, "paths": str([(o.kind, o.exc, o.note) for o in outs])})
+        for oi, o in enumerate(outs):
+            chk.add_from_path(f"interpolate-log/nu{tag}" + (f"/path{oi}" if len(outs) > 1 else ""), o, func=fq, meta={"replay": rep})
+        for oi, o in enumerate(rets):
+            val, shape = o.value
+            sfx = f"@{oi}" if len(rets) > 1 else ""
+            chk.add(f"interpolate-log/nu{tag}/post/exp-times-complete-bell-polynomial{sfx}", list(o.pc), T.zr(val) == spec_for(nus, j0), func=fq,
+                    meta={"replay": rep})
+            chk.add(f"interpolate-log/nu{tag}/post/one-value-per-query-point{sfx}", list(o.pc),
+                    z3.BoolVal(len(shape) == 1) if len(shape) != 1 else T.zi(shape[0]) == Mq, func=fq, meta={"replay": rep})
+
+
 def build(chk):
     index_maps(chk)
     tensor_grid(chk)
     uniform_grid(chk)
+    log_variant(chk)
 
 
 def main(tier="quick", seed=0, bounded=True, proof=True):
